@@ -471,12 +471,15 @@ class Samples(BaseSamples):
         self.weights = self.xp.exp(self.log_w)
         self.evidence = self.xp.exp(self.log_evidence)
         n = len(self.x)
-        self.evidence_error = self.xp.sqrt(
-            self.xp.sum((self.weights - self.evidence) ** 2) / (n * (n - 1))
-        )
+        # Relative error from max-shifted weights so it stays finite when
+        # exp(log_w) over- or underflows
+        u = self.xp.exp(self.log_w - self.xp.max(self.log_w))
+        u_mean = self.xp.sum(u) / n
         self.log_evidence_error = self.xp.abs(
-            self.evidence_error / self.evidence
+            self.xp.sqrt(self.xp.sum((u - u_mean) ** 2) / (n * (n - 1)))
+            / u_mean
         )
+        self.evidence_error = self.log_evidence_error * self.evidence
         log_w = self.log_w - self.xp.max(self.log_w)
         self.effective_sample_size = self.xp.exp(
             asarray(logsumexp(log_w) * 2 - logsumexp(log_w * 2), self.xp)
